@@ -334,3 +334,46 @@ Section SetRef.
     - unfold Map.skeyexist, Spec.skeyexist. rewrite He. reflexivity.
   Qed.
 End SetRef.
+
+Section SpopRef.
+  Variable compact : bool.
+  Notation Rep := (@RepC unit compact).
+
+  Lemma In_firstn' {A} n (l : list A) y : In y (firstn n l) -> In y l.
+  Proof.
+    revert l; induction n as [|n IH]; intros l; cbn; [tauto|]. destruct l as [|x r]; cbn; [tauto|].
+    intros [H|H]; [left; exact H|right; apply IH; exact H].
+  Qed.
+
+  Lemma spop_ref clock key n c a : Rep clock c -> sim c a ->
+    swref (Map.spop key n) (Spec.spop key n) c a.
+  Proof.
+    intros R S. unfold swref, Map.spop, Spec.spop.
+    rewrite (smembers_n_ref compact clock key _ c a R S).
+    set (cnt := match n with Some n0 => n0 | None => 1 end).
+    destruct (Spec.smembers_n key cnt a) as [vals|] eqn:E; cbn [fst snd]; [|split; [reflexivity|exact S]].
+    (* the guards of SRem can not fail on members that were just enumerated *)
+    unfold Spec.smembers_n in E.
+    destruct (max_batch_num <? cnt) eqn:E1; [discriminate|]. destruct (cnt <=? 0) eqn:E2; [discriminate|].
+    destruct (negb (key_ok key)) eqn:K; [discriminate|]. inversion E; subst vals; clear E.
+    set (vals := firstn (Z.to_nat cnt) (sorted_members a)).
+    destruct (srem_ref compact clock key vals c a R S) as [W1 W2].
+    assert (SR : Spec.srem key vals a = (fst (del_loop vals a), RInt (snd (del_loop vals a)))).
+    { unfold Spec.srem. destruct vals as [|v0 r0] eqn:EV; [reflexivity|]. rewrite <- EV.
+      assert (too_many vals = false) as ->.
+      { unfold too_many. assert (length vals <= Z.to_nat cnt)%nat by (unfold vals; apply firstn_le_length). lia. }
+      rewrite K. cbn [orb].
+      assert (forallb subkey_ok vals = true) as ->.
+      { apply forallb_forall. intros m Hm. unfold vals in Hm. apply In_firstn' in Hm.
+        unfold sorted_members, sorted_pairs in Hm. apply in_map_iff in Hm. destruct Hm as ([m' u] & <- & Hm). cbn [fst].
+        apply isort_In in Hm. apply (aget_In bytes_eqb bytes_eqb_eq) in Hm || idtac.
+        assert (G : aget bytes_eqb m' a = Some u).
+        { apply (In_aget_nodup bytes_eqb bytes_eqb_eq); [destruct S as (_ & N & _); exact N|exact Hm]. }
+        rewrite <- (sim_lookup c a m' S) in G. unfold lookup in G. destruct (exists_coll c); [|discriminate].
+        apply (aget_In vkey_eqb vkey_eqb_eq) in G. apply (rc_sub _ _ _ R _ G). }
+      cbn [negb]. destruct (del_loop vals a); reflexivity. }
+    rewrite SR in W1, W2. cbn [fst snd] in *.
+    destruct (Map.srem key vals c) as [c' r]. cbn [fst snd] in *. subst r.
+    destruct (del_loop vals a) as [a' k]. cbn [fst snd] in *. split; [reflexivity|exact W2].
+  Qed.
+End SpopRef.
